@@ -45,7 +45,12 @@ impl<'a, 'b> InterpStack<'a, 'b> {
                         if let Some(ctx) = self.ctx.cel {
                             // Allow for loaded programs to run as values
                             if let Some(prog) = ctx.get_program(&name) {
-                                return self.ctx.run_raw(prog.bytecode(), true).map(|x| x.into());
+                                // a stored program that fails is a failed operand, like a
+                                // failing call; it does not abort the referencing program
+                                return Ok(match self.ctx.run_raw(prog.bytecode(), true) {
+                                    Ok(val) => val.into(),
+                                    Err(err) => CelValue::from_err(err).into(),
+                                });
                             }
                         }
 
